@@ -43,6 +43,7 @@ CONTROLS = {
     ],
     "C01x": [],
     "C03": [
+        ("the high-precision origin is the lower bound of one box", H + "clipper.core.h", "      int64_t originy = (CC_MIN(bb0maxy, bb1maxy) + CC_MAX(bb0miny, bb1miny)) >> 1;", "      int64_t originy = (CC_MIN(bb0maxy, bb1maxy) - CC_MAX(bb0miny, bb1miny)) >> 1;", "ORIGIN.convex"),
         ("minima_list_sorted_ no longer invalidated by AddPaths", E, "    if (is_open) has_open_paths_ = true;\n    minima_list_sorted_ = false;", "    if (is_open) has_open_paths_ = true;", "SORTED.invalidate"),
         ("IsCollinear's last factor measured from pt1", 'CPP/Clipper2Lib/include/clipper2/clipper.core.h', '    const auto d = pt2.x - sharedPt.x;', '    const auto d = pt2.x - pt1.x;', 'POLY.cross'),
         ("DoSplitOp inserts the crossing point although it equals prevOp", E, "    if (ip == prevOp->pt || ip == nextNextOp->pt)", "    if (ip == nextNextOp->pt)", "SPLIT.no-duplicate"),
@@ -106,6 +107,7 @@ CONTROLS = {
         ("sum computed with the operands exchanged", H + "clipper.minkowski.h", "      if (patLen == 0 || pathLen == 0) return Paths64();\n", "      if (patLen == 0 || pathLen == 0) return Paths64();\n      if (isSum && pathLen > patLen) return Minkowski(path, pattern, true, isClosed);\n", "MINK.roles"),
     ],
     "C07": [
+        ("InflatePaths(Paths64) exchanges the two option doubles", H + "clipper.h", "    ClipperOffset clip_offset(miter_limit, arc_tolerance);", "    ClipperOffset clip_offset(arc_tolerance, miter_limit);", "OPTIONS.forwarded"),
         ("OffsetOpenPath gives up on a zero group delta", O, "\t// do the line start cap\n\tif (deltaCallback64_) group_delta_ = deltaCallback64_(path, norms, 0, 0);", "\t// do the line start cap\n\tif (deltaCallback64_) group_delta_ = deltaCallback64_(path, norms, 0, 0);\n\tif (group_delta_ == 0) return;", "EMIT.every-path"),
         ('only truly straight joins are sent to DoMiter', 'CPP/Clipper2Lib/src/clipper.offset.cpp', '\telse if (cos_a > 0.999 && join_type_ != JoinType::Round)', '\telse if (cos_a > 0.9999999 && join_type_ != JoinType::Round)', 'THRESHOLD.bisector'),
         ('miter allowed up to the limit itself instead of its cosine', 'CPP/Clipper2Lib/src/clipper.offset.cpp', '\t\tif (cos_a > temp_lim_ - 1) DoMiter(path, j, k, cos_a);', '\t\tif (cos_a > temp_lim_) DoMiter(path, j, k, cos_a);', 'JOIN.dispatch'),
